@@ -874,6 +874,9 @@ func (x *Exec) modLocs(env *Env, e ast.Expr) []modLoc {
 		if id, ok := n.Fun.(*ast.Ident); ok && id.Name == "arr" && len(n.Args) == 1 {
 			// arr(s): the whole backing array of slice s (coarse, quantifier-free)
 			s := oe.eval(n.Args[0], nil)
+			if len(s.l) < 3 {
+				panic(evalErr{"arr() needs a slice"})
+			}
 			return []modLoc{{ptr: sliceElemAddr(s, mkBV(0, 64))}}
 		}
 	case *ast.SliceExpr: // s[:] : the elements of s
